@@ -197,7 +197,7 @@ Proof.
   assert (Z1 : total_parts zp = 0 /\ nonneg_parts zp /\ units zp = []).
   { subst zp. destruct (f_parts f) as [|[a x] l]; [splits; constructor|].
     destruct (n =? 0) eqn:E; [|splits; constructor]. apply Z.eqb_eq in E. subst n.
-    splits. repeat constructor. cbn; lia. }
+    splits; [reflexivity | repeat constructor; cbn; lia | reflexivity]. }
   destruct Z1 as (Z1 & Z2 & Z3).
   rewrite total_parts_app, units_app, Z1, Z3. cbn [app].
   splits; try lia; try assumption.
